@@ -13,6 +13,12 @@ func NondetBool(name string) bool                                  { return fals
 func NondetString(name string, maxLen int, alphabet string) string { return "" }
 func NondetFloat32(name string) float32                            { return 0 }
 
+// NondetStringN: a string of exactly n bytes (n concrete) over the alphabet, contents symbolic.
+func NondetStringN(name string, n int, alphabet string) string { return "" }
+
+// Param is a tier-dependent bound chosen by the check driver (a concrete constant in every run).
+func Param(name string) int { return 0 }
+
 // Fork returns a value in 0..n-1; the engine enumerates all n cases (each case is a separate symbolic run).
 func Fork(name string, n int) int { return 0 }
 
